@@ -335,9 +335,10 @@ CHECKS["C04"] = {
     "rule": "a case = one store + 2..14 probes. Non-trivial = expected accept with a password containing a transport-special byte, or expected reject for a near-miss; distinct = distinct "
             "(frontend, probe kind, expected verdict, special flag)",
     "assumptions": ["TLS variants of the listeners only wrap the same handlers and are not generated"],
-    "required_classes": {"all": ["probe:nontrivial", "probe:internal-error-must-deny", "frontend:ldap-bind", "frontend:basic-auth", "frontend:api-authenticate", "frontend:sasl-callback", "expected:true", "expected:false"]},
+    "required_classes": {"all": ["bb-probe:nontrivial", "bb-frontend:sasl-split", "bb-frontend:cli", "bb-frontend:ldap", "probe:nontrivial", "probe:internal-error-must-deny", "frontend:ldap-bind", "frontend:basic-auth", "frontend:api-authenticate", "frontend:sasl-callback", "expected:true", "expected:false"]},
     "jobs": [
         J("inprocess", AGENT, "TestC04Frontends", {"shards": 8, "checks": 80}, {"shards": 16, "checks": 4000}, toolchain="go126"),
+        J("binary", VBB, "TestC04Binary", {"shards": 8, "checks": 12}, {"shards": 16, "checks": 300}),
     ],
 }
 
@@ -479,3 +480,19 @@ CHECKS["C20"] = {
         J("realserver", VPAM, "TestC20AgainstRealServer", {"shards": 2, "checks": 40}, {"shards": 8, "checks": 800}),
     ],
 }
+
+BIN_PREBUILD = [{"cmd": ["go", "build", "-trimpath", "-o", "{bin}/whawty-auth", "./cmd/whawty-auth"]}]
+CHECKS["C04"]["prebuild"] = BIN_PREBUILD
+
+CHECKS["C16"]["jobs"].append(J("cli", VBB, "TestC16CLI", {"shards": 4, "checks": 20}, {"shards": 16, "checks": 300}))
+CHECKS["C16"]["prebuild"] = BIN_PREBUILD
+CHECKS["C16"]["required_classes"]["all"] += ["do-check=false:list-runs", "cli-store:valid", "cli-store:both-extensions"]
+CHECKS["C17"]["jobs"].append(J("cli", VBB, "TestC17CLI", {"shards": 4, "checks": 15}, {"shards": 16, "checks": 300}))
+CHECKS["C17"]["jobs"].append(J("clibadpolicy", VBB, "TestC17CLIBadPolicy", {"shards": 1}, rapid=False))
+CHECKS["C17"]["prebuild"] = BIN_PREBUILD
+CHECKS["C17"]["required_classes"]["all"] += ["cli-policy:refused", "cli-policy:accepted", "cli-bad-policy-table"]
+CHECKS["C18"]["jobs"].append(J("reload", VBB, "TestC18Reload", {"shards": 6, "checks": 4}, {"shards": 16, "checks": 120}))
+CHECKS["C18"]["prebuild"] = BIN_PREBUILD
+CHECKS["C18"]["required_classes"]["all"] += ["reload:good", "reload:check-fails", "reload:samedir-unsupported", "reload:unparsable", "reload-with-requests-in-flight"]
+CHECKS["C19"]["jobs"].append(J("hanginghook", VBB, "TestC19HangingHook", {"shards": 1, "timeout": 300}, rapid=False, tiers=("thorough",)))
+CHECKS["C19"]["prebuild"] = BIN_PREBUILD
